@@ -128,6 +128,13 @@ impl Pools {
         for a in args {
             Pools::numbers(a, &mut nums, self);
         }
+        // the hooks print floats as text, which loses the sign bit of a NaN (0.0 / 0.0 is the NEGATIVE quiet NaN on x86):
+        // the specification, computing with the tabulated hardware results, meets either
+        if nums.iter().any(|x| x.is_nan()) {
+            nums.retain(|x| !x.is_nan());
+            nums.push(f64::from_bits(0x7ff8_0000_0000_0000));
+            nums.push(f64::from_bits(0xfff8_0000_0000_0000));
+        }
         for a in &nums {
             self.floats.insert(a.to_bits());
         }
@@ -144,6 +151,10 @@ impl Pools {
         Pools::numbers(v, &mut nums, self);
         for a in &nums {
             self.floats.insert(a.to_bits());
+            if a.is_nan() {
+                self.floats.insert(0x7ff8_0000_0000_0000);
+                self.floats.insert(0xfff8_0000_0000_0000);
+            }
         }
     }
 }
